@@ -282,7 +282,10 @@ func (fx *fnExec) applyContract(st *state, in ssa.Instruction, ct *Contract, inf
 	}
 	// requires
 	for _, r := range ct.Requires {
-		v := cpre.eval(r.Expr)
+		v, ok := fx.tryEval(cpre, r.Expr, "requires ["+r.Label+"] of callee "+info.short)
+		if !ok {
+			continue
+		}
 		props := r.Props
 		if len(props) == 0 {
 			props = unionStr(ct.Props, ct.SafetyProps)
@@ -376,7 +379,12 @@ func (fx *fnExec) applyContract(st *state, in ssa.Instruction, ct *Contract, inf
 	}
 	cpost := &specCtx{fx: fx, cur: st, old: pre, names: post, pkg: info.pkg}
 	for _, e := range ct.Ensures {
-		v := cpost.eval(e.Expr)
+		// a callee clause that does not resolve here (e.g. a closure that no longer captures the
+		// variable it names) is not assumed: sound, and reported as an engine error
+		v, ok := fx.tryEval(cpost, e.Expr, "ensures ["+e.Label+"] of callee "+info.short)
+		if !ok {
+			continue
+		}
 		fx.assume(v.term)
 	}
 	if info.key == "::(*sync.Mutex).Lock" && len(args) > 0 && args[0].addr != nil && args[0].addr.kind == aField {
